@@ -3,6 +3,7 @@ import OcVerif.Driver.Time
 import OcVerif.Driver.Queue
 import OcVerif.Driver.QConc
 import OcVerif.Driver.Nio
+import OcVerif.Driver.TLCache
 /-!
 `ocmodel`: reads history lines `<comp> <id> : <body> => <implementation outputs>` on stdin,
 runs the Lean model on `<body>`, compares with the implementation's outputs and evaluates the
@@ -19,6 +20,7 @@ def dispatch (comp : String) : Option (String → String → Verdict) :=
   | "pq" => some Driver.Queue.drivePq
   | "qconc" => some Driver.QConc.drive
   | "nio" => some Driver.Nio.drive
+  | "tlcache" => some Driver.TLCache.drive
   | _ => none
 
 def handle (line : String) : String :=
